@@ -36,6 +36,11 @@ def groups_arg(rng, sels, n):
 
 
 def gen(rng, budget, tier):
+    # the client's two writers of one outfile (periodic reporter, final report) — run first, before the machine is busy
+    yield "c15.race 3000 6"
+    if tier == "thorough":
+        yield "c15.race 20000 15"
+        yield "c15.race 200 40"
     for i in range(budget):
         ops = rng.sample(["count", "sum", "min", "max", "last"], rng.choice([1, 2, 3]))
         if "count" not in ops:
@@ -63,6 +68,8 @@ def gen(rng, budget, tier):
 
 
 def model_case(case, impl):
+    if case.startswith("c15.race"):
+        return case
     f = case.split(" ")
     if f[5] != "0":
         # kill run: pass the observed state to the model, which checks it is a prefix state
@@ -92,8 +99,9 @@ def _canon(s):
     # the outfile lives in a fresh temporary directory; the model uses the fixed directory /d
     import re
     from lib import V
-    prefix = (V + "/evidence/work/C15/c15-").encode().hex()
-    return re.sub(prefix + r"(?:3[0-9])+", b"/d".hex(), s)
+    # (the work directory is evidence/work/<property>/: C15 for this check, C05 when the C05 check runs outfile cases)
+    pre, post = (V + "/evidence/work/C").encode().hex(), b"/c15-".hex()
+    return re.sub(pre + r"3[0-9]3[0-9]" + post + r"(?:3[0-9])+", b"/d".hex(), s)
 
 
 CANON = {"c15.write": _canon}
